@@ -106,11 +106,11 @@ CHECKS['C06'] = dict(
     level_note=('Faults are injected at exported interfaces and at the verif hook in Store.Fetch/Store/BatchStore; a request that never answers '
                 '(badger WriteBatch.Flush blocks on a closed DB) counts as "no signature". Over-long result lists are out of scope (no rules.Service produces them).'),
     parts=[part('TestC06Enum', 1, 1, tshards=1, no_rapid_count=True), part('TestC06Random', 600, 5000, qshards=2)],
-    rule=('enumerated table: 5 request kinds x 18 fault sites (with modes) x position classes x {service,gRPC}, run completely in both tiers, plus '
+    rule=('enumerated table: 5 request kinds x 19 fault sites (with modes) x position classes x {service,gRPC}, run completely in both tiers, plus '
           'rapid-generated plans of 0-4 faults; a case is non-trivial iff a planned fault actually fired on a position that the fault-free twin run of the '
           'same request signed; distinct = sha256 of the case JSON'),
     essential=['fault-fired-on-otherwise-signed-position', 'multi-fault-plan', 'enumerated-single-fault-cases'] + ['fired:' + s for s in [
-        'fetch', 'check', 'isunlocked-err', 'unlock-err', 'unlock-false', 'locked-unknown-passphrase', 'rules', 'rules-list', 'store-fetch-err',
+        'fetch', 'check', 'isunlocked-err', 'unlock-err', 'unlock-false', 'locked-unknown-passphrase', 'rules', 'ruler', 'rules-list', 'store-fetch-err',
         'store-store-err', 'store-batch-err', 'record-undecodable', 'store-closed-before', 'store-closed-at-fetch', 'store-closed-at-store',
         'hash-fail', 'sign-err', 'non-signer']],
     assumptions=['fault model: errors/indeterminate answers at dependency boundaries, not memory corruption', 'herumi BLS verification is trusted'],
